@@ -81,8 +81,10 @@ def problem(variant=0):
     from rig.links import Links
     from rig.place_and_route.constraints import (
         SameChipConstraint, LocationConstraint, ReserveResourceConstraint)
-    vr = {"a": {Cores: 1, SDRAM: 8}, "b": {Cores: 1}, "c": {Cores: 2},
-          "d": {Cores: 1}}
+    # (a and b share a chip: their SDRAM needs are not multiples of the
+    # wrapper's alignment of 4, so a stale alignment shows in the slices)
+    vr = {"a": {Cores: 1, SDRAM: 6}, "b": {Cores: 1, SDRAM: 3},
+          "c": {Cores: 2}, "d": {Cores: 1}}
     nets = [Net("a", ["b", "c"], 1.0), Net("c", ["d", "a"], 2.0),
             Net("d", ["d"], 0.5)]
     if variant == 1:
